@@ -39,6 +39,11 @@ def linkify(state: StateInline, silent: bool) -> bool:
     # disallow '*' at the end of the link (conflicts with emphasis)
     url = url.rstrip("*")
 
+    # in validation mode `state.pending` (hence `proto`) can be stale, so the match may end
+    # before the current position: treat as no match, or the parser would not advance
+    if len(url) <= len(proto):
+        return False
+
     full_url = state.md.normalizeLink(url)
     if not state.md.validateLink(full_url):
         return False
